@@ -1,6 +1,6 @@
 // C18 (schedule-independent clauses): candidate bookkeeping, budgets, exactly-once evaluation, value association.
 // args: mode ...
-//  mode 0: CandidateManager  <dims> <ncand> <batch> <ops>     ops: string over {n (next), c (complete oldest running batch), r (re-assign candidates)}
+//  mode 0: CandidateManager  <dims> <ncand> <batch> <ops>     ops: string over {n (next), c (complete oldest running batch), r (re-assign candidates: odd generations the same list), R (re-assign: every entry kept or replaced by a new point, solver-chosen)}
 //  mode 1: constructSurrogate <grid spec> <parallel 0/1> <jobs> <batch>      budget from a symbolic real
 //  mode 2: loadNeededValues addon <grid spec> <threads>
 // built with -fno-access-control (CandidateManager internals are read for the invariants)
@@ -40,6 +40,12 @@ static int mode0(int argc, char **argv){
       if (running.empty()) continue;
       std::vector<double> x = running.front(); running.erase(running.begin());
       man.complete(x);
+    } else if (op == 'R'){
+      // refresh after which some running points may no longer be candidates (a late sample changed the surpluses): each entry is kept or replaced
+      gen++; std::vector<double> fresh = cands(10 + gen);
+      for (int c=0;c<nc;c++){ int keep = fpsym_choice(60 + 10 * gen + c, 2, c % 2); if (!keep) for (int j=0;j<d;j++) current[(size_t) c * d + j] = fresh[(size_t) c * d + j]; }
+      distinct(current); man = std::vector<double>(current);
+      handed.clear(); for (auto &b : running) for (size_t i=0;i<b.size()/d;i++) handed.push_back(fpsym_keys(std::vector<double>(b.begin() + i * d, b.begin() + (i + 1) * d)));
     } else if (op == 'r'){
       gen++; current = cands(gen % 2 == 1 ? 0 : gen); distinct(current); man = std::vector<double>(current);   // odd generations re-propose the same list
       handed.clear(); for (auto &b : running) for (size_t i=0;i<b.size()/d;i++) handed.push_back(fpsym_keys(std::vector<double>(b.begin() + i * d, b.begin() + (i + 1) * d)));
